@@ -156,6 +156,20 @@ func runC08(tier string, seed uint64) {
 						}
 					}
 				}
+				// ... and an aws-chunked upload whose transport fails (no EOF) at any point, the closing chunk included
+				{
+					pl := []byte("chunked and cut off")
+					st := encodeChunks(splitChunks(pl, []int{8}))
+					for k := 0; k < len(st); k += 1 + len(st)/25 {
+						s.ChunkedPutFailing(b, key, pl, []int{8}, k)
+					}
+					for k := len(st) - 88; k < len(st); k += 5 {
+						if k >= 0 {
+							s.ChunkedPutFailing(b, key, pl, []int{8}, k)
+						}
+					}
+					snapshot()
+				}
 				// missing / unparsable / negative length, empty body
 				for _, h := range [][][2]string{{}, {{"Content-Length", "abc"}}, {{"Content-Length", "-1"}}, {{"Content-Length", ""}}, {{"Content-Length", "12"}, {"Content-MD5", digests["good"]}}} {
 					bd := body
